@@ -121,9 +121,13 @@ def check_programs(progs: dict[int, list[dict]],
 
 
 def strip(progs: dict[int, list[dict]]) -> dict[int, list[tuple]]:
-    """Schedule-independent signature of programs (for comparison)."""
+    """Schedule-independent signature of programs (for comparison): what is
+    ISSUED, in which order.  Where a rank waits for an operation it issued is
+    not part of the property (and an observation of the harness that resolves
+    a completed future can move it)."""
     out = {}
     for r, p in progs.items():
+        p = [op for op in p if op['t'] != 'W']
         out[r] = [
             (op['t'], op.get('g'), op.get('i'), op.get('kind'),
              op.get('root'), op.get('numel'), op.get('dtype'),
